@@ -1146,13 +1146,24 @@ class IxGen:
                 return "mty_eqb %s %s" % (atom(a), atom(b)), "bool"
             if ta == "name" and tb == "strlit":
                 return "name_eqb %s %s" % (atom(a), b), "bool"
+            if ta == tb == "name":
+                return "name_eqb %s %s" % (atom(a), atom(b)), "bool"
             self.no(e[4], "== on %s / %s" % (ta, tb))
+        if k == "bin" and e[1] == ">":
+            a, ta = self.tr(e[2], env)
+            b, tb = self.tr(e[3], env)
+            if ta == tb == "nat":
+                return "Nat.ltb %s %s" % (atom(b), atom(a)), "bool"
+            self.no(e[4], "> on %s / %s" % (ta, tb))
         if k == "field":
             c, t = self.tr(e[1], env)
             if t == "leafV" and e[2] == "typ":
                 return "lf_ty %s" % atom(c), "mty"
             if t == "rng" and e[2] == "range":
                 return c, "rng"                     # FileRange.range: the same range (the file is re-attached by ctx.error)
+            if t == "leaf" and e[2] in ("name", "typ", "has_default_value"):
+                return {"name": ("lf_name %s" % atom(c), "name"), "typ": ("lf_ty %s" % atom(c), "mty"),
+                        "has_default_value": ("lf_default %s" % atom(c), "bool")}[e[2]]
             self.no(e[3], "field .%s of %s" % (e[2], t))
         if k == "mcall":
             recv, m, args, line = e[1], e[2], e[3], e[4]
@@ -1181,8 +1192,44 @@ class IxGen:
                 if not ok:
                     self.no(line, "dag argument idiom")
                 return c0, ("list", ("node", "Value"))
-            if m == "into_iter" and not args:
-                return self.tr(recv, env)
+            if m in ("into_iter", "iter") and not args:
+                c0, t0 = self.tr(recv, env)
+                if m == "iter" and not (isinstance(t0, tuple) and t0[0] == "list"):
+                    self.no(line, "iter() on %s" % (t0,))
+                return c0, t0
+            if m == "len" and not args:
+                c0, t0 = self.tr(recv, env)
+                if not (isinstance(t0, tuple) and t0[0] == "list"):
+                    self.no(line, "len() on %s" % (t0,))
+                return "length %s" % atom(c0), "nat"
+            if m == "get" and len(args) == 1:
+                c0, t0 = self.tr(recv, env)
+                a, ta = self.tr(args[0], env)
+                if not (isinstance(t0, tuple) and t0[0] == "list") or ta != "nat":
+                    self.no(line, "get(%s) on %s" % (ta, t0))
+                return "nth_error %s %s" % (atom(c0), atom(a)), ("opt", t0[1])
+            if m == "find" and len(args) == 1 and args[0][0] == "closure" and len(args[0][1]) == 1 and args[0][1][0][0] == "pbind":
+                c0, t0 = self.tr(recv, env)
+                if not (isinstance(t0, tuple) and t0[0] == "list"):
+                    self.no(line, "find on %s" % (t0,))
+                x = args[0][1][0][1]
+                env2 = dict(env)
+                env2[x] = ("v_" + x, t0[1])
+                b, bt = self.tr(args[0][2], env2)
+                if bt != "bool":
+                    self.no(line, "find with a closure of type %s" % (bt,))
+                return "find (fun v_%s => %s) %s" % (x, b, atom(c0)), ("opt", t0[1])
+            # xs.iter().map(|x| e).collect() into a HashSet: the list of the elements (see the notes: names are unique)
+            if m == "collect" and not args and recv[0] == "mcall" and recv[2] == "map" and len(recv[3]) == 1 and recv[3][0][0] == "closure" \
+                    and len(recv[3][0][1]) == 1 and recv[3][0][1][0][0] == "pbind":
+                c0, t0 = self.tr(recv[1], env)
+                if not (isinstance(t0, tuple) and t0[0] == "list"):
+                    self.no(line, "map(..).collect() on %s" % (t0,))
+                x = recv[3][0][1][0][1]
+                env2 = dict(env)
+                env2[x] = ("v_" + x, t0[1])
+                b, bt = self.tr(recv[3][0][2], env2)
+                return "map (fun v_%s => %s) %s" % (x, b, atom(c0)), ("list", bt)
             if m == "map" and len(args) == 1 and args[0][0] == "closure":
                 c0, t0 = self.tr(recv, env)
                 cl = args[0]
@@ -2075,6 +2122,242 @@ class IxGen:
         return ("%smatch self_node with\n%s| APos v_pv v_ar =>\n%s\n%s| ANamed v_nm v_nv v_ar =>\n%s\n%s| ANamedBad v_ar =>\n%s\n%send"
                 % (indent, indent, pos, indent, named, indent, bad_, indent))
 
+    # ---- check_template_args: statements over one mutable local U (the HashSet of unsolved names) in state-passing style
+    def is_remove(self, e, U):
+        return (U is not None and e[0] == "mcall" and e[2] == "remove" and len(e[3]) == 1 and e[1][0] == "path" and e[1][1] == [U])
+
+    def bind_pat(self, pat, t, env, line):
+        """Coq pattern + extended env for a pattern under Some(..): a variable or a tuple of variables"""
+        env2 = dict(env)
+        if pat[0] == "pbind":
+            env2[pat[1]] = ("v_" + pat[1], t)
+            return "v_" + pat[1], env2
+        if pat[0] == "ptuple" and isinstance(t, tuple) and t[0] == "tuple" and len(t[1]) == len(pat[1]) \
+                and all(q[0] in ("pbind", "pwild") for q in pat[1]):
+            vs = []
+            for q, qt in zip(pat[1], t[1]):
+                if q[0] == "pbind":
+                    env2[q[1]] = ("v_" + q[1], qt)
+                    vs.append("v_" + q[1])
+                else:
+                    vs.append("_")
+            return "(" + ", ".join(vs) + ")", env2
+        self.no(line, "pattern %s on a value of type %s" % (pat[0], t))
+
+    def sblk(self, stmts, tail, env, U, kind, indent):
+        """kind 'unit': M (type of U), the final value of U; 'val': M (T * type of U); 'plain': M unit, no U in scope.
+        Returns (code, type of the value for 'val')"""
+        Uc = "v_%s" % U if U else None
+        vts = []
+
+        def fin(val=None, vt=None):
+            if kind == "plain":
+                return "ret tt"
+            if kind == "unit":
+                return "ret %s" % Uc
+            vts.append(vt)
+            return "ret (%s, %s)" % (val, Uc)
+
+        def sub(b, env2, ind):
+            c, vt = self.sblk(b[1], b[2], env2, U, kind, ind)
+            vts.append(vt)
+            return c
+
+        def sif(e, env):
+            line = e[-1]
+            if e[0] == "if":
+                cond, th, el = e[1], e[2], e[3]
+                A = sub(th, env, indent + "  ")
+                if el is None:
+                    if kind == "val":
+                        self.no(line, "`if` without else as a value")
+                    B = indent + "  " + fin()
+                else:
+                    B = sub(el, env, indent + "  ")
+                if self.is_remove(cond, U):
+                    c, t = self.tr(cond[3][0], env)
+                    if t != "name":
+                        self.no(line, "remove(%s)" % (t,))
+                    # HashSet::remove returns whether the value was present
+                    self.rmn = getattr(self, "rmn", 0) + 1
+                    rm = "rm%d" % self.rmn
+                    # (the branches were rendered over the name v_U, which the let below rebinds)
+                    return ("%s(let %s := remove_name %s %s in let %s := snd %s in\n%sif fst %s then\n%s\n%selse\n%s)"
+                            % (indent, rm, atom(c), Uc, Uc, rm, indent, rm, A, indent, B))
+                pre, c, t = self.tr_st(cond, env)
+                if t != "bool":
+                    self.no(line, "condition of type %s" % (t,))
+                return "%s(%sif %s then\n%s\n%selse\n%s)" % (indent, pre, c, A, indent, B)
+            if e[0] == "iflet":
+                pat, scrut, th, el = e[1], e[2], e[3], e[4]
+                c, t = self.tr(scrut, env)
+                if pat[0] != "psome" or not (isinstance(t, tuple) and t[0] == "opt"):
+                    self.no(line, "if let %s on %s" % (pat[0], t))
+                cp, env2 = self.bind_pat(pat[1], t[1], env, line)
+                A = sub(th, env2, indent + "  ")
+                if el is None:
+                    if kind == "val":
+                        self.no(line, "`if let` without else as a value")
+                    B = indent + "  " + fin()
+                else:
+                    B = sub(el, env, indent + "  ")
+                return "%smatch %s with\n%s| Some %s =>\n%s\n%s| None =>\n%s\n%send" % (indent, c, indent, cp, A, indent, B, indent)
+            self.no(line, "statement %s" % e[0])
+
+        def go(i, env):
+            if i == len(stmts):
+                if tail is None:
+                    if kind == "val":
+                        self.no(0, "block without a value")
+                    return indent + fin()
+                if kind != "val":
+                    self.no(0, "block with a value where none is expected")
+                if tail[0] in ("if", "iflet"):
+                    return sif(tail, env)
+                pre, c, t = self.tr_st(tail, env)
+                return indent + pre + fin(c, t)
+            st = stmts[i]
+            last = (i == len(stmts) - 1 and tail is None)
+            if st[0] == "ifstmt":
+                if not last:
+                    self.no(st[-1], "`if` statement that is not the last statement of its block")
+                return sif(st[1], env)
+            if st[0] == "continue":
+                if not (last and kind == "unit"):
+                    self.no(st[-1], "continue")
+                return indent + fin()
+            if st[0] == "expr":
+                e = st[1]
+                if self.is_remove(e, U):
+                    c, t = self.tr(e[3][0], env)
+                    if t != "name":
+                        self.no(st[-1], "remove(%s)" % (t,))
+                    return "%slet %s := snd (remove_name %s %s) in\n%s" % (indent, Uc, atom(c), Uc, go(i + 1, env))
+                pre, term, t = self.m_expr(e, env)
+                if pre or t != "unit":
+                    self.no(st[-1], "statement of type %s" % (t,))
+                return "%s(%s) ;;\n%s" % (indent, term, go(i + 1, env))
+            if st[0] == "let":
+                pat, ty, init, els, line = st[1], st[2], st[3], st[4], st[5]
+                if els is not None:
+                    if not (kind == "unit" and pat[0] == "psome" and els[1] == [("continue", els[1][0][-1])] and els[2] is None):
+                        self.no(line, "let-else that is not `let Some(..) = e else { continue; }` in a loop body")
+                    c, t = self.tr(init, env)
+                    if not (isinstance(t, tuple) and t[0] == "opt"):
+                        self.no(line, "let Some(..) on %s" % (t,))
+                    cp, env2 = self.bind_pat(pat[1], t[1], env, line)
+                    return ("%smatch %s with\n%s| None => %s\n%s| Some %s =>\n%s\n%send"
+                            % (indent, c, indent, fin(), indent, cp, go(i + 1, env2), indent))
+                if pat[0] != "pbind":
+                    self.no(line, "let pattern %s" % pat[0])
+                x = pat[1]
+                env2 = dict(env)
+                if init[0] == "mcall" and init[2] == "unwrap" and not init[3]:
+                    # a panic site: None is `bad` (the lemma shows it is not reached)
+                    c, t = self.tr(init[1], env)
+                    if not (isinstance(t, tuple) and t[0] == "opt"):
+                        self.no(line, "unwrap on %s" % (t,))
+                    env2[x] = ("v_" + x, t[1])
+                    return ("%smatch %s with\n%s| None => bad\n%s| Some v_%s =>\n%s\n%send"
+                            % (indent, c, indent, indent, x, go(i + 1, env2), indent))
+                if init[0] == "match":
+                    if U is None:
+                        self.no(line, "let = match")
+                    c, t = self.tr(init[1], env)
+                    if not (isinstance(t, tuple) and t[0] == "opt") or len(init[2]) != 2:
+                        self.no(line, "let = match on %s" % (t,))
+                    arms, ats = {}, []
+                    for ap, ab in init[2]:
+                        if ab[0] != "block":
+                            ab = ("block", [], ab)
+                        if ap[0] == "pnone":
+                            code, vt = self.sblk(ab[1], ab[2], env, U, "val", indent + "    ")
+                            arms["None"] = "%s  | None =>\n%s" % (indent, code)
+                        elif ap[0] == "psome":
+                            cp, env3 = self.bind_pat(ap[1], t[1], env, line)
+                            code, vt = self.sblk(ab[1], ab[2], env3, U, "val", indent + "    ")
+                            arms["Some"] = "%s  | Some %s =>\n%s" % (indent, cp, code)
+                        else:
+                            self.no(line, "arm pattern %s" % ap[0])
+                        ats.append(vt)
+                    if sorted(arms) != ["None", "Some"]:
+                        self.no(line, "let = match: arms")
+                    vt = ([a for a in ats if "None" not in repr(a)] or ats)[0]
+                    self.rmn = getattr(self, "rmn", 0) + 1
+                    r = "r%d" % self.rmn
+                    env2[x] = ("v_" + x, vt)
+                    return ("%s%s <- (match %s with\n%s\n%s\n%s  end) ;;\n%slet v_%s := fst %s in let %s := snd %s in\n%s"
+                            % (indent, r, c, arms["None"], arms["Some"], indent, indent, x, r, Uc, r, go(i + 1, env2)))
+                pre, c, t = self.tr_st(init, env)
+                env2[x] = ("v_" + x, t)
+                return "%s%slet v_%s := %s in\n%s" % (indent, pre, x, c, go(i + 1, env2))
+            self.no(st[-1] if isinstance(st[-1], int) else 0, "statement %s" % st[0])
+
+        code = go(0, env)
+        vt = ([a for a in vts if a is not None and "None" not in repr(a)] or [a for a in vts if a is not None] or [None])[0]
+        return code, vt
+
+    def render_check_template_args(self, fn, indent):
+        """fn check_template_args(ctx, template_args, arg_values, range): early return, one mutable HashSet<EcoString> (rendered
+        as the list of its elements: insertion order is irrelevant because the only iteration over it emits the same
+        diagnostic for every element), a `for .. enumerate()` that updates it (foldM) and a final `for` over it (iterM)"""
+        want = [("ctx", "&mut IndexCtx"), ("template_args", "Vec<TemplateArgument>"),
+                ("arg_values", "Vec<Option<(Option<EcoString>,Type,TextRange)>>"), ("range", "TextRange")]
+        line = fn["line"]
+        if fn["params"] != want or fn["ret"] is not None:
+            self.no(line, "signature of check_template_args")
+        env = {"ctx": ("ctx", "ctx"), "template_args": ("v_template_args", ("list", "leaf")),
+               "arg_values": ("v_arg_values", ("list", ("opt", ("tuple", [("opt", "name"), "mty", "rng"])))), "range": ("v_range", "rng")}
+        stmts, tail = fn["body"][1], fn["body"][2]
+        if tail is not None:
+            self.no(line, "check_template_args returns a value")
+
+        def go(i, env, U):
+            Uc = "v_%s" % U if U else None
+            if i == len(stmts):
+                return indent + "ret tt"
+            st = stmts[i]
+            ln = st[-1] if isinstance(st[-1], int) else line
+            if st[0] == "ifstmt" and st[1][0] == "if" and st[1][3] is None and st[1][2][2] is None and st[1][2][1] \
+                    and st[1][2][1][-1][0] == "return" and st[1][2][1][-1][1] is None and U is None:
+                pre, c, t = self.tr_st(st[1][1], env)
+                if t != "bool":
+                    self.no(ln, "condition of type %s" % (t,))
+                body, _ = self.sblk(st[1][2][1][:-1], None, env, None, "plain", indent + "  ")
+                return "%s%sif %s then\n%s\n%selse\n%s" % (indent, pre, c, body, indent, go(i + 1, env, U))
+            if st[0] == "let" and st[1][0] == "pmut" and st[1][1][0] == "pbind" and st[2] == "HashSet<EcoString>" and st[4] is None and U is None:
+                c, t = self.tr(st[3], env)
+                if t != ("list", "name"):
+                    self.no(ln, "HashSet<EcoString> collected from %s" % (t,))
+                U2 = st[1][1][1]
+                env2 = dict(env)
+                env2[U2] = ("v_" + U2, ("hashset", "name"))
+                return "%slet v_%s := %s in\n%s" % (indent, U2, c, go(i + 1, env2, U2))
+            if st[0] == "for":
+                pat, it, body = st[1], st[2], st[3]
+                if it[0] == "mcall" and it[2] == "enumerate" and not it[3] and U is not None and pat[0] == "ptuple" and len(pat[1]) == 2 \
+                        and all(q[0] == "pbind" for q in pat[1]):
+                    c, t = self.tr(it[1], env)
+                    if not (isinstance(t, tuple) and t[0] == "list"):
+                        self.no(ln, "enumerate() on %s" % (t,))
+                    a, b = pat[1][0][1], pat[1][1][1]
+                    env2 = dict(env)
+                    env2[a] = ("v_" + a, "nat")
+                    env2[b] = ("v_" + b, t[1])
+                    code, _ = self.sblk(body[1], body[2], env2, U, "unit", indent + "    ")
+                    return ("%s%s <- foldM (fun %s it => let v_%s := fst it in let v_%s := snd it in\n%s)\n%s  (combine (List.seq 0%%nat (length %s)) %s) %s ;;\n%s"
+                            % (indent, Uc, Uc, a, b, code, indent, atom(c), atom(c), Uc, go(i + 1, env, U)))
+                if it == ("path", [U], it[2]) and pat[0] == "pbind":
+                    # consumes the set; every element is visited once, in an unspecified order
+                    env2 = {k: v for k, v in env.items() if k != U}
+                    env3 = dict(env2)
+                    env3[pat[1]] = ("v_" + pat[1], "name")
+                    code, _ = self.sblk(body[1], body[2], env3, None, "plain", indent + "    ")
+                    return "%siterM (fun v_%s =>\n%s)\n%s  %s ;;\n%s" % (indent, pat[1], code, indent, Uc, go(i + 1, env2, None))
+            self.no(ln, "statement %s of check_template_args" % st[0])
+
+        return go(0, env, None)
+
     def render_Include(self, fn, indent):
         """ast::Include over SInclude r target: the database lookups (resolved_include_map / IncludeId / get) are the field
         `target`, `ctx.db.parse(f)` + `SourceFile::cast(..)?` is the statement list of file f in the workspace [db_files]"""
@@ -2283,6 +2566,9 @@ def translate(repo):
                 env = {"class_ref": ("self", ("node", "ClassRef")), "ctx": ("ctx", "ctx")}
                 params = NODES["ClassRef"][0]
                 name, ret = "src_" + label, "N"
+            elif T is None and label == "check_template_args":
+                env, params = {}, [("v_template_args", "list leaf"), ("v_arg_values", "list (option argv)"), ("v_range", "rng")]
+                name, ret = "src_check_template_args", "unit"
             elif T is None and label == "index_name_value":
                 env = {"value": ("v_value", ("node", "Value")), "ctx": ("ctx", "ctx")}
                 params = [("v_value", "value")]
@@ -2305,6 +2591,8 @@ def translate(repo):
             elif T == "Include":
                 params, name, ret = [("n_r", "rng"), ("n_target", "option N")], "src_ix_Include", "unit"
                 text = ig.render_Include(fn, "    ")
+            elif label == "check_template_args":
+                text = ig.render_check_template_args(fn, "    ")
             else:
                 text = ig.seq(body[1], 0, body[2], env, "    ")
             sec.append("  (* %s: %s *)" % (INDEX, label))
